@@ -54,7 +54,7 @@ MULTI_CONN = {"t12tk2": 2, "t12tkrot": 2, "t12tk3": 3, "t12rid": 2, "t13tk2": 2,
 # configurations explored for their special messages, and near-duplicates of another configuration (same code paths up to the
 # cipher suite / key type): reduced sampling of the generic classes in the quick tier; the always-run classes are not affected
 REDUCED = set(MULTI_CONN) | {"t12tk", "t13tk", "t13hrr"}
-REDUCED_QUICK = {"t12rsa", "t12ec", "t13cha", "d12cbc"}
+REDUCED_QUICK = set()       # (not needed since run_parallel uses short-lived harness processes)
 # ext-matrix: the configuration that delivers the full grid for a handshake message (type, TLS 1.3?); the others get a sample
 EXT_GRID = {("t13ca", 1), ("t13ca", 2), ("t13ca", 8), ("t13ca", 13), ("t13ca", 11), ("t13tk", 4), ("t13hrr", 2), ("t13hrr", 1), ("t13tk2", 1), ("t13tk2", 2),
             ("t12", 1), ("t12", 2)}
@@ -814,8 +814,10 @@ def build_cases(caps, rng, per_state, classes_seen):
     return cases
 
 
-def run_parallel(h, lines, nproc=4, timeout=3000, env=None):
-    """run case lines through nproc harness processes (lines of one state stay together); returns outputs in order"""
+def run_parallel(h, lines, nproc=4, timeout=3000, env=None, batch=350):
+    """run case lines through nproc workers (lines of one state stay together); returns outputs in order.
+    Every worker feeds its share to a series of short-lived harness processes (about `batch` lines each): a harness
+    process that has forked thousands of children under ASan gets slower and slower (quarantine, page tables)."""
     groups, cur, key = [], [], None
     for i, l in enumerate(lines):
         kk = tuple(l.split(" ", 3)[:3])
@@ -826,22 +828,28 @@ def run_parallel(h, lines, nproc=4, timeout=3000, env=None):
     buckets = [[] for _ in range(nproc)]
     sizes = [0] * nproc
     for g in sorted(groups, key=len, reverse=True):
-        j = sizes.index(min(sizes)); buckets[j] += g; sizes[j] += len(g)
-    procs = []
-    for b in buckets:
-        b.sort()
-        p = subprocess.Popen([h], stdin=subprocess.PIPE, stdout=subprocess.PIPE, stderr=subprocess.PIPE, text=True, errors="replace",
-                             env=(dict(os.environ, **env) if env else None))
-        procs.append((p, b))
+        j = sizes.index(min(sizes)); buckets[j].append(g); sizes[j] += len(g)
     import threading
     outs = [None] * len(lines); errs = []
-    def work(p, b):
-        o, e = p.communicate("".join(lines[i] + "\n" for i in b), timeout=timeout)
-        ol = o.split("\n")
-        for j, i in enumerate(b):
-            outs[i] = ol[j] if j < len(ol) and ol[j] else "NOOUTPUT"
-        if p.returncode != 0: errs.append(e[-2000:])
-    ths = [threading.Thread(target=work, args=pb) for pb in procs]
+    penv = dict(os.environ, **env) if env else None
+    def work(gs):
+        gs.sort(key=lambda g: g[0])
+        batches, cur = [], []
+        for g in gs:
+            cur += g
+            if len(cur) >= batch: batches.append(cur); cur = []
+        if cur: batches.append(cur)
+        for b in batches:
+            p = subprocess.Popen([h], stdin=subprocess.PIPE, stdout=subprocess.PIPE, stderr=subprocess.PIPE, text=True, errors="replace", env=penv)
+            try:
+                o, e = p.communicate("".join(lines[i] + "\n" for i in b), timeout=timeout)
+            except subprocess.TimeoutExpired:
+                p.kill(); o, e = p.communicate()
+            ol = o.split("\n")
+            for j, i in enumerate(b):
+                outs[i] = ol[j] if j < len(ol) and ol[j] else "NOOUTPUT"
+            if p.returncode != 0: errs.append(e[-2000:])
+    ths = [threading.Thread(target=work, args=(gs,)) for gs in buckets if gs]
     for t in ths: t.start()
     for t in ths: t.join()
     return outs, errs
@@ -1418,7 +1426,7 @@ def explore(ck, h, quick_per_state, thorough_per_state):
         lines = lines + sn
     # paint differential: legal traces of every configuration, all corpus / directed cases, a deterministic sample of
     # the exploration (every case in thorough)
-    step = ck.budget(18, 1)
+    step = ck.budget(10, 1)
     ncorp = len(corp)
     idx = list(range(ncorp)) + list(range(ncorp, ncorp + len(cases), step))
     pl = ["cap %s" % c for c in CFGS] + [lines[i] for i in idx] + sn
